@@ -90,7 +90,7 @@ pub fn run(cfg: &Cfg, rep: &mut Report) {
             }
         } else {
             let mut rng = Rng::new(cfg.seed ^ 0x17);
-            for _ in 0..cfg.n(300, 20_000) {
+            for _ in 0..cfg.n(300, 300_000) {
                 let v = bits.iter().filter(|_| rng.chance(1, 3)).fold(0, |a, b| a | b);
                 cases.push((k, v));
             }
@@ -261,7 +261,7 @@ pub fn run(cfg: &Cfg, rep: &mut Report) {
     });
 
     // ---- (c,d,e) id_ref_any, id_ref_any_mut, From/unwrap
-    let n = cfg.n(64 * 200, 64 * 1000);
+    let n = cfg.n(64 * 200, 64 * 200_000);
     run_stage(cfg, rep, "operand-variants", n, |idx, rng, r| {
         let vi = (idx % decls::OPERAND_VARIANTS.len() as u64) as usize;
         let (vname, _payload_ty) = decls::OPERAND_VARIANTS[vi];
